@@ -107,6 +107,14 @@ func deserializeParams(batch arrow.RecordBatch, target reflect.Type) (reflect.Va
 		)
 	}
 
+	// Every field below reads row 0. ReadRequest lets a zero-row batch through
+	// when it carries pointer metadata (vgi_rpc.location / shm offset) on the
+	// understanding that the caller resolves it first; a pointer nobody
+	// resolved must be refused here rather than indexed out of range.
+	if batch.NumRows() < 1 && batch.NumCols() > 0 {
+		return reflect.Value{}, fmt.Errorf("parameter batch has %d rows, expected 1", batch.NumRows())
+	}
+
 	result := reflect.New(target).Elem()
 
 	for ord, fd := range desc.Fields {
